@@ -7,8 +7,11 @@ root="$1"; shift
 ids="$*"; [ -z "$ids" ] && ids=$(ls -d $root/C[0-9]*[a-z] | xargs -n1 basename)
 cd /verif || exit 2
 export GOFLAGS=-mod=mod GOPROXY=off GOSUMDB=off GOTOOLCHAIN=local GOWORK=off
+# MVCHECK=<binary>: use that analyser (e.g. one built from an earlier commit, to measure what the
+# checks caught when a batch of seeds arrived) instead of building the current sources
+if [ -n "${MVCHECK:-}" ]; then cp "$MVCHECK" /var/tmp/mvcheck.matrix; else
 go build -o bin/mvcheck ./cmd/mvcheck || exit 2
-cp bin/mvcheck /var/tmp/mvcheck.matrix
+cp bin/mvcheck /var/tmp/mvcheck.matrix; fi
 wt=/var/tmp/mvmatrix_wt
 git -C /repo worktree remove --force $wt 2>/dev/null
 git -C /repo worktree add -q --detach $wt HEAD || exit 2
